@@ -83,12 +83,12 @@ def mc_u1(pid, tier):
 
 # property -> list of (family, share of the walk budget)
 FAMILIES = {
-    "C04": [("mixed", 0.5), ("session", 0.3), ("enum:handshake", 0)], "C05": [("mixed", 0.6), ("retry", 0.4)], "C06": [("mixed", 0.6), ("session", 0.4)],
+    "C04": [("mixed", 0.5), ("session", 0.3), ("enum:handshake", 0)], "C05": [("mixed", 0.6), ("retry", 0.4)], "C06": [("inbound", 0.6), ("mixed", 0.3), ("session", 0.2)],
     "C07": [("subs", 0.6), ("mixed", 0.4)], "C08": [("retry", 0.6), ("mixed", 0.4)], "C09": [("qos2", 0.6), ("mixed", 0.2), ("session", 0.2)],
-    "C10": [("mixed", 0.6), ("session", 0.4)], "C11": [("session", 0.7), ("mixed", 0.3)], "C12": [("session", 0.7), ("mixed", 0.3)],
+    "C10": [("mixed", 0.5), ("persist", 0.4), ("session", 0.3)], "C11": [("session", 0.7), ("mixed", 0.3)], "C12": [("persist", 0.4), ("wrapsess", 0.3), ("session", 0.3), ("mixed", 0.2)],
     "C13": [("mixed", 0.3), ("session", 0.3), ("retry", 0.2), ("keepalive", 0.2)], "C14": [("mixed", 0.7), ("session", 0.3), ("enum:handshake", 0)],
-    "C15": [("keepalive", 0.7), ("mixed", 0.3)], "C16": [("enum:inject", 0), ("enum:handshake", 0), ("mixed", 0.4), ("session", 0.3)], "C17": [("wrap", 0.7), ("mixed", 0.3)],
-    "C18": [("mixed", 0.5), ("session", 0.5), ("enum:handshake", 0)], "C20": [("enum:args", 0), ("mixed", 0.6)],
+    "C15": [("keepalive", 0.7), ("mixed", 0.3)], "C16": [("enum:inject", 0), ("enum:handshake", 0), ("mixed", 0.4), ("session", 0.3)], "C17": [("wrap", 0.5), ("wrapsess", 0.4), ("mixed", 0.2)],
+    "C18": [("mixed", 0.4), ("session", 0.4), ("persist", 0.4), ("enum:handshake", 0)], "C20": [("enum:args", 0), ("mixed", 0.6)],
 }
 
 
